@@ -187,10 +187,30 @@ class Lookalike:
         return f"Lookalike({self.k!r})"
 
 
+class AnyEq:
+    """A value that claims to be EQUAL to everything (like ``unittest.mock.ANY``), a library's private markers
+    included: only identity tells a marker from a value."""
+    __hash__ = None  # type: ignore[assignment]
+
+    def __init__(self, k: Any):
+        self.k = k
+
+    def __eq__(self, other: Any) -> bool:
+        return True
+
+    def __ne__(self, other: Any) -> bool:
+        return False
+
+    def __repr__(self) -> str:
+        return f"AnyEq({self.k!r})"
+
+
 def decode(v: Any) -> Any:
     """Decode a JSON-able raw value."""
     if isinstance(v, list):
         tag = v[0]
+        if tag == "An":
+            return AnyEq(v[1])
         if tag == "La":
             return Lookalike(v[1])
         if tag == "Aw":
